@@ -11,6 +11,13 @@ What is proved here for ALL universes, worlds and states:
 * `resolve_names_unique`  a successful resolution holds at most one package per name;
 * `resolve_ok_or_err`     the result is a set or an error, never a partial set flagged ok.
 
+* `resolve_sound_partial`  a successful resolution that raised NO ghost flag is `Valid` (for every
+                    universe with pairwise distinct ids, every world, every initial dq) — equivalently
+                    `invalid_has_flag`: every invalid output of the model carries one of the five flags.
+                    The ingredients (`Lemmas/Resolver*.lean`): `constrain_tightens`, `candidate_sat`,
+                    `getDeps_mono` (dq / selected / flags only grow), `getDeps_closed` (the closure
+                    invariant of the dependency walk), `go_sound`; `resolve_subset` needs no hypothesis.
+
 The full soundness statement `ResolveSound` (resolve = ok s → Valid) is FALSE on the unchanged tree:
 five concrete witnesses (`F02a_witness` … `F02e_witness`) are proved below, one per unsound shortcut of
 the greedy algorithm; each is replayed on the Go code from corpus/resolver/.  The shortcuts are
@@ -19,6 +26,7 @@ a listed flag by the driver, and an invalid output with no flag is reported as a
 -/
 import Apko.Model.Resolver
 import Apko.Generated.Resolver
+import Apko.Proofs.Lemmas.ResolverTop
 
 namespace Apko.C02
 open Apko Apko.Resolver
@@ -337,5 +345,124 @@ theorem not_ResolveSound : ¬ ResolveSound := by
     rw [hw.1] at hv
     exact absurd hv (by simp)
   · simp at hw
+
+/-! ## soundness of every resolution that raised no ghost flag
+
+The five ghost flags are the ONLY ways the greedy resolver produces an invalid set: this is proved for
+all universes with distinct ids, all worlds, all initial disqualification sets, all provider orders
+(`c.order` is unconstrained), both install_if loops and both `bothBad` settings.  Proof structure, in
+`Apko/Proofs/Lemmas/Resolver{Basic,State,Loop,Mono,Closed,Top}.lean`. -/
+
+/-- well-formedness the proof needs: package ids are pairwise distinct (`id` models Go's pointer identity,
+so this holds of every universe the harness builds); nothing is assumed of `order`, `installIfFixed`,
+`addedOrder`, `bothBad`. -/
+def UniverseWF (c : Cfg) : Prop := IdsDistinct c.u
+
+instance (c : Cfg) : Decidable (UniverseWF c) := by unfold UniverseWF; infer_instance
+
+/-- T `resolve_subset`: every member of a successful resolution is a package of the universe
+(no hypothesis; holds with or without flags, install_if additions included) -/
+theorem resolve_subset (c : Cfg) (w : List Text) (dq0 : List Nat) (r : Resolution)
+    (h : resolve c w dq0 = .ok r) : ∀ p ∈ r.install, p ∈ c.u.all := by
+  unfold resolve at h
+  split at h
+  · simp at h
+  · split at h
+    · simp at h
+    · simp at h
+    · exact go_subset c _ _ _ _ _ r h (by simp)
+
+/-- T `dq_monotone`: the dependency walk never removes a disqualification -/
+theorem dq_monotone (c : Cfg) (fuel : Nat) (pkg : Pkg) (allowPin : Text) (parents : List (Text × Nat))
+    (ds : DepSt) (out : DepOut) (h : getDeps c fuel pkg allowPin parents ds = .ok out) :
+    ds.st.dq ⊆ out.ds.st.dq :=
+  (getDeps_mono c allowPin fuel pkg parents ds out h).dq
+
+/-- T `flags_monotone`: the dependency walk never clears a ghost flag -/
+theorem flags_monotone (c : Cfg) (fuel : Nat) (pkg : Pkg) (allowPin : Text) (parents : List (Text × Nat))
+    (ds : DepSt) (out : DepOut) (h : getDeps c fuel pkg allowPin parents ds = .ok out) :
+    ∀ f ∈ ds.st.flags, f ∈ out.ds.st.flags :=
+  (getDeps_mono c allowPin fuel pkg parents ds out h).flags_sub
+
+/-- T `deps_closed`: a flag-free walk from a root (no ancestors) leaves every non-conflict dependency of the
+root and of every emitted package satisfied inside any set `S` that holds the root, the emitted packages
+and the packages recorded in `selected` -/
+theorem deps_closed (c : Cfg) (hu : UniverseWF c) (S : List Pkg) (fuel : Nat) (pkg : Pkg) (allowPin : Text)
+    (ds : DepSt) (out : DepOut) (h : getDeps c fuel pkg allowPin [] ds = .ok out)
+    (hpu : pkg ∈ c.u.all) (hpS : pkg ∈ S) (hdS : ∀ x ∈ out.deps, x ∈ S)
+    (hsel : ∀ e ∈ out.ds.st.selected, e.2 ∈ S) (hkey : ∀ e ∈ ds.st.selected, KeyOK e)
+    (hfl : out.ds.st.flags = []) :
+    ∀ p, (p = pkg ∨ p ∈ out.deps) → ∀ d ∈ p.deps, isConflict d = false → ∃ q ∈ S, sat q d = true := by
+  intro p hp
+  rcases getDeps_closed c hu S allowPin fuel pkg [] ds out h hpu hpS hdS hsel hkey hfl p hp with
+    ⟨a, ha, _⟩ | h1
+  · simp at ha
+  · exact h1
+
+/-- the three semantic clauses at once -/
+theorem resolve_flagless (c : Cfg) (w : List Text) (dq0 : List Nat) (r : Resolution) (hu : UniverseWF c)
+    (h : resolve c w dq0 = .ok r) (hf : r.flags = []) :
+    (∀ e ∈ w, isConflict e = false → ∃ p ∈ r.install, sat p e = true) ∧
+    (∀ p ∈ r.install, DepsSat r.install p) := by
+  unfold resolve at h
+  split at h
+  · simp at h
+  · next dq1 hdq1 =>
+    split at h
+    · simp at h
+    · simp at h
+    · next depMap dq2 hwl =>
+      have hsub : dq1 ⊆ dq2 := worldLoop_infl c _ _ _ _ _ hwl
+      have := go_sound c hu w depMap ⟨dq2, [], []⟩ [] [] r h hf (by simp) (by simp) (by simp)
+        (fun e he hnc => (constrain_tightens c w dq0 dq1 hdq1 e he hnc).mono hsub)
+      refine ⟨this.2.1, fun p hp => ?_⟩
+      rcases this.2.2 p hp with h1 | h1
+      · simp at h1
+      · exact h1
+
+/-- T `resolve_world_satisfied_partial`: with no ghost flag, every non-conflict world entry is satisfied -/
+theorem resolve_world_satisfied_partial (c : Cfg) (w : List Text) (dq0 : List Nat) (r : Resolution)
+    (hu : UniverseWF c) (h : resolve c w dq0 = .ok r) (hf : r.flags = []) :
+    ∀ e ∈ w, isConflict e = false → ∃ p ∈ r.install, sat p e = true :=
+  (resolve_flagless c w dq0 r hu h hf).1
+
+/-- T `resolve_closed_partial`: with no ghost flag, the install set is closed under dependencies -/
+theorem resolve_closed_partial (c : Cfg) (w : List Text) (dq0 : List Nat) (r : Resolution)
+    (hu : UniverseWF c) (h : resolve c w dq0 = .ok r) (hf : r.flags = []) :
+    ∀ p ∈ r.install, ∀ d ∈ p.deps, isConflict d = false → ∃ q ∈ r.install, sat q d = true :=
+  (resolve_flagless c w dq0 r hu h hf).2
+
+/-- T `resolve_sound_partial`: a successful resolution that raised no ghost flag is a closed, consistent
+install set.  Together with the witnesses above: the five flagged shortcuts are exactly where the
+resolver can go wrong. -/
+theorem resolve_sound_partial (c : Cfg) (w : List Text) (dq0 : List Nat) (r : Resolution)
+    (hu : UniverseWF c) : resolve c w dq0 = .ok r → r.flags = [] → Valid c.u w r.install := by
+  intro h hf
+  refine ⟨resolve_world_satisfied_partial c w dq0 r hu h hf, resolve_closed_partial c w dq0 r hu h hf,
+    resolve_names_unique c w dq0 r h, ?_⟩
+  intro p hp
+  exact ⟨p, resolve_subset c w dq0 r h p hp, rfl, rfl, rfl⟩
+
+/-- T `invalid_has_flag`: what the driver observes on every run, as a theorem — an invalid output of the
+model always carries a ghost flag -/
+theorem invalid_has_flag (c : Cfg) (w : List Text) (dq0 : List Nat) (r : Resolution) (hu : UniverseWF c)
+    (h : resolve c w dq0 = .ok r) (hinv : validB c.u w r.install = false) : r.flags ≠ [] := by
+  intro hf
+  have := (validB_iff _ _ _).mpr (resolve_sound_partial c w dq0 r hu h hf)
+  rw [hinv] at this
+  exact absurd this (by simp)
+
+/-- the hypotheses are satisfiable by non-trivial values: all five witness universes are well-formed … -/
+example : UniverseWF (cfgOf uA) ∧ UniverseWF (cfgOf uB) ∧ UniverseWF (cfgOf uC) ∧ UniverseWF (cfgOf uD) ∧
+    UniverseWF (cfgOf uE) := by decide
+
+/-- … and a flag-free successful resolution exists (two packages, a versioned dependency through a provide) -/
+def flagFreeOk (ps : List Pkg) (w : List String) (n : Nat) : Bool :=
+  match resolve (cfgOf ps) (w.map String.toList) [] with
+  | .ok r => r.flags.isEmpty && r.install.length == n
+  | _ => false
+
+set_option maxRecDepth 100000 in
+example : UniverseWF (cfgOf [exA, exB]) ∧ flagFreeOk [exA, exB] ["a"] 2 = true := by decide
 
 end Apko.C02
